@@ -249,8 +249,10 @@ def run_paths(prop, tier, seed):
     t0 = time.time()
     plan = PATHS_PLAN[prop]
     binary = V.build_engine(PATHS, "asan")
-    total = int(subprocess.run([binary, "--prop", prop, "--tier", tier, "--mode", "count"], capture_output=True, text=True, env=dict(os.environ, **V.SAN_ENV)).stdout.strip())
-    res = V.run_sharded(prop, binary, [], total, seed, tier, V.NCPU, 900 if tier == "quick" else 10800, replay_dir(prop), tag="paths-" + prop)
+    # C11/C12 also search a few graphs of 65535..100003 vertices (32-bit index arithmetic past 2^16 vertices)
+    extra = ["--x-big", "10" if tier == "quick" else "40"] if prop in ("C11", "C12") else []
+    total = int(subprocess.run([binary, "--prop", prop, "--tier", tier, "--mode", "count"] + extra, capture_output=True, text=True, env=dict(os.environ, **V.SAN_ENV)).stdout.strip())
+    res = V.run_sharded(prop, binary, extra, total, seed, tier, V.NCPU, 900 if tier == "quick" else 10800, replay_dir(prop), tag="paths-" + prop)
     c = res.counters
     coverage = {
         "evaluations": int(total),
